@@ -5,6 +5,8 @@ REAL_NATIVE = ["native.Package", "native.CombinedPackage", "native.CombinedImpor
 HOOK_COMMITS = ["65a4ceb"]
 
 ENGINES = [
+    {"name": "detsim", "path": "/verif/maporder + /verif/sim/props/c30", "serves_properties": ["C30"],
+     "kind_free_text": "map-order seam: a go/packages-based rewriter turns every range-over-map of the compiler into a simulator-ordered iteration in a scratch copy of /repo; the check rebuilds sources under seeded orders and interleaved histories and compares artefacts with a canonical-order reference, within and across processes"},
     {"name": "buildsim", "path": "/verif/sim/simio + /verif/sim/props/{c18,c04}", "serves_properties": ["C18", "C04"],
      "kind_free_text": "builds run against a simulated disk (recording fs.FS with injected I/O errors, not-found lies, short/zero reads, torn and bit-flipped stored files) and, for C04, inside a testing/synctest bubble so that the parser/lexer goroutine pair is observed for deadlock and leaked goroutines; token channel capacity is a per-run knob (guarded hook)"},
     {"name": "vmsim", "path": "/verif/sim/sched + /verif/sim/props/{c14,c11,c10}", "serves_properties": ["C14", "C11", "C10"],
@@ -128,5 +130,21 @@ CHECKS = {
         "level_text": "Seeded search over (source, stored-byte damage, I/O fault, channel capacity). Oracle per build: the call returns (a parser/lexer deadlock is seen as a bubble in which everything is blocked), no panic reaches the caller, the process survives (a panic on the lexer goroutine kills the worker: attributed to the run, confirmed and minimised through child processes), no goroutine of the build is alive after it returns, Disassemble/UsedVars of a successful build do not panic; a wall-clock watchdog per worker backs up CPU-bound hangs.",
         "level_note": "The byte-level space is sampled, not enumerated; the statement's `arbitrary bytes` is approached through damage of realistic sources. No particular error is demanded (C03/C21).",
         "assumptions": ["sources up to 64 KiB"],
+    },
+    "C30": {
+        "id": "C30", "pkg": "c30", "test": "TestC30", "level": "exploration",
+        "tags": "verif,maporder", "maporder": True,
+        "runs": {"quick": 1600, "thorough": 200000},
+        "chunk": 1500, "run_timeout_s": 20,
+        "selftest": {"quick": 48, "thorough": 256}, "selftest_procs": {"quick": 3, "thorough": 12},
+        "rule": "the worker is built against a scratch copy of /repo in which the maporder tool (go/packages, type-directed) has rewritten every range-over-map of internal/compiler/..., native, ast/..., builtin and the root package into an iteration whose order the simulator decides. Each run draws 1-3 sources (comparison-corpus programs and templates with their .dir companions, generated template sets, skeleton programs with sub-packages, concurrent programs), builds each once under the canonical order (reference), then executes a drawn history of 3-6 interleaved rebuilds under drawn orders (reverse, rotation, seeded shuffle differing at every loop) and token channel capacities. "
+                "evaluations = builds; distinct_nontrivial = distinct (source, reference digest, map order, seed, capacity) tuples of successful rebuilds",
+        "components": {"real": ["scriggo.Build / BuildTemplate of the rewritten copy (lexer, parser, checker incl. dependency analysis, emitter, builder)", "Disassemble, UsedVars, Format, Run"],
+                       "stub": ["Go map iteration order in the compiler: simulator-decided through internal/simmap (scratch copy only; nothing lands in /repo)", "token channel capacity (guarded hook)"]},
+        "engine": "detsim", "design_ref": "DESIGN.md section 5, C30",
+        "technique": "deterministic simulation: the compiler's only unseedable nondeterminism (map iteration order) put behind a seam by a type-directed source rewrite of a scratch copy; seeded orders and build histories; cross-process digest comparison",
+        "level_text": "Seeded search over (sources, build history, map orders). Oracle: every rebuild's disassembly (all packages / whole template), UsedVars, Format and behaviour on fixed inputs are byte-identical to the reference build; whether a source builds at all never varies (error text may). The driver's determinism self-test additionally re-executes a sample of runs in separate processes and compares the per-run digests, which include the reference digests: that is the across-processes half of the statement.",
+        "level_note": "Map iterations whose key type has no canonical order (none on the current tree) would be reported in the evidence as uncontrolled. The rewrite is recomputed from /repo's working tree on every run, so new range-over-map sites are covered automatically. internal/runtime is not rewritten (map iteration there is the interpreted program's own semantics).",
+        "assumptions": ["go/packages can load /repo offline", "range-over-func (Go 1.23) preserves the loop bodies' semantics"],
     },
 }
